@@ -18,7 +18,7 @@ func build(n3 *zm.NSEC3Params) *authsim.Universe {
 	sz := u.AddServer("zone")
 	sz2 := u.AddServer("zone2")
 	si := u.AddServer("insec")
-	root := u.AddZone(zm.Spec{Apex: ".", Signed: true}, sr)
+	root := u.AddZone(zm.Spec{Apex: ".", Signed: true, NSEC3: n3}, sr)
 	tld := u.AddZone(zm.Spec{Apex: "test.", Signed: true, NSEC3: n3}, st)
 	zone := u.AddZone(zm.Spec{Apex: "example.test.", Signed: true, NSEC3: n3, SplitKeys: true}, sz, sz2)
 	other := u.AddZone(zm.Spec{Apex: "other.test.", Signed: true, Algorithm: 15}, st) // shares server with parent
